@@ -1066,6 +1066,7 @@ func (c *FnCtx) runGhosts(st *State, site string, pos token.Pos) {
 		if u.At != site {
 			continue
 		}
+		c.siteSeen("use|" + u.At + "|" + u.Call)
 		// a use whose arguments name variables that do not exist on this path is skipped (only hypotheses are lost)
 		func() {
 			defer func() {
@@ -1096,6 +1097,7 @@ func (c *FnCtx) runGhosts(st *State, site string, pos token.Pos) {
 		if g.At != site {
 			continue
 		}
+		c.siteSeen("ghost|" + g.At + "|" + g.Stmt)
 		c.guarded(st, func() { c.execGhost(st, g, pos) })
 	}
 	for _, a := range c.spec.Asserts {
@@ -1296,4 +1298,11 @@ func exprString2(e ast.Expr) string {
 
 func hintKey(fn, label string, path []string) string {
 	return fn + "|" + label + "|" + strings.Join(path, ";")
+}
+
+func (c *FnCtx) siteSeen(k string) {
+	if c.assertSeen == nil {
+		c.assertSeen = map[string]bool{}
+	}
+	c.assertSeen[k] = true
 }
